@@ -86,6 +86,10 @@ def generate(rng, tier):
             v = np.array(v, dtype=np.float32).astype(float).tolist()
         cases.append({"kind": "tria", "family": fam, "v": v, "t": t, "vdtype": vd, "d": rng.choice([0.1, -0.1, 0.5, -2.0]),
                       "tseed": rng.randrange(1 << 30)})
+    # a closed surface and an open patch in nanometre units (areas ~1e-18: the geometry queries must not treat them as degenerate)
+    for v, t in (gm.ellipsoid(1, (1.0, 1.4, 0.8), "octa"), gm.grid(3, 2, rng, "smooth", "alt")):
+        cases.append({"kind": "tria", "family": "nano", "v": (np.array(v, dtype=float) * 1e-9).tolist(), "t": t, "vdtype": "float64",
+                      "d": 1e-10, "tseed": rng.randrange(1 << 30)})
     for k in range(10 if tier == "quick" else 100):
         v, t = gm.tet_family(["kuhn", "delaunay", "subset", "single"][k % 4], rng)
         if rng.random() < 0.3:
